@@ -64,6 +64,33 @@ def _fix_labels(g: ProgGen, body: list[dict]) -> None:
         tgt.insert(g.r.randint(0, len(tgt)), {"t": "label", "name": nm})
 
 
+MACRO_EXPANSION_LIMIT = 250      # statements one expansion may contribute (nested expansions included)
+PROGRAM_EXPANSION_LIMIT = 1500   # statements all expansions of a program may contribute
+
+
+def _own_size(body: list[dict]) -> int:
+    return sum(len(b) for b in _blocks_of(body))
+
+
+def _calls_in(body: list[dict]) -> list[tuple[list, int]]:
+    return [(blk, i) for blk in _blocks_of(body) for i, s in enumerate(blk) if s["t"] == "macrocall"]
+
+
+def _expanded_size(body: list[dict], sizes: dict[str, int]) -> int:
+    return _own_size(body) + sum(sizes.get(blk[i]["name"], 0) for blk, i in _calls_in(body))
+
+
+def _limit_calls(rnd: random.Random, body: list[dict], sizes: dict[str, int], limit: int) -> None:
+    """nested expansions grow exponentially with the depth of the call DAG: drop calls until the bound holds (the real
+    compiler copes with huge expansions; the list-based Lean model is quadratic in the number of labels)"""
+    while _expanded_size(body, sizes) > limit:
+        calls = _calls_in(body)
+        if not calls:
+            return
+        blk, i = rnd.choice(calls)
+        blk[i] = {"t": "op", "name": "x", "args": []}
+
+
 def gen_macro(rnd: random.Random, idx: int, earlier: list[dict], cfg: Cfg) -> dict:
     nvars = rnd.choice([0, 1, 1, 2, 3])
     params = [f"$p{idx}_{k}" if rnd.random() < 0.7 else f"$a{k}" for k in range(nvars)]
@@ -81,7 +108,9 @@ def gen_macro(rnd: random.Random, idx: int, earlier: list[dict], cfg: Cfg) -> di
         nm = g.new_label()
         body.append({"t": "label", "name": nm})
     _fix_labels(g, body)
-    return {"name": f"m{idx}", "params": params, "body": body, "_stats": g.stats}
+    sizes = {m["name"]: m["_esize"] for m in earlier}
+    _limit_calls(rnd, body, sizes, MACRO_EXPANSION_LIMIT)
+    return {"name": f"m{idx}", "params": params, "body": body, "_stats": g.stats, "_esize": _expanded_size(body, sizes)}
 
 
 def _blocks_of(body: list[dict]) -> list[list[dict]]:
@@ -121,6 +150,13 @@ def program_with_macros(rnd: random.Random, cfg: Cfg) -> tuple[dict, dict]:
     if bodies and not any(s["t"] == "macrocall" for b in bodies for blk in _blocks_of(b) for s in blk):
         blk = rnd.choice(_blocks_of(rnd.choice(bodies)))
         blk.insert(rnd.randint(0, len(blk)), g.macro_call())
+    sizes = {m["name"]: m.pop("_esize") for m in macros}
+    while sum(_expanded_size(b, sizes) for b in bodies) > PROGRAM_EXPANSION_LIMIT:
+        calls = [c for b in bodies for c in _calls_in(b)]
+        if not calls:
+            break
+        blk, i = rnd.choice(calls)
+        blk[i] = {"t": "op", "name": "x", "args": []}
     order = list(range(nm))
     rnd.shuffle(order)
     p["macros"] = [macros[i] for i in order]
